@@ -11,7 +11,10 @@ def get_dependency_between_modules(
     dependent_node = get_node(dependent)
     dependent_upon_nodes = get_all_submodules_of(graph, dependent_upon)
 
-    nodes_to_exclude = get_parent_nodes([dependent, dependent_upon])
+    # 'sub modules of X' does not include X itself: X is neither an importer (if it is the parent of the dependent)
+    # nor an importee (if it is the parent of the dependent upon); it can very well be the respective other
+    importers_to_exclude = get_parent_nodes([dependent])
+    importees_to_exclude = get_parent_nodes([dependent_upon])
 
     nodes_to_check = [dependent_node]
     checked_nodes = set()
@@ -34,8 +37,8 @@ def get_dependency_between_modules(
 
             elif (
                 child in dependent_upon_nodes
-                and node not in nodes_to_exclude
-                and child not in nodes_to_exclude
+                and node not in importers_to_exclude
+                and child not in importees_to_exclude
             ):
                 dependencies.append(tuple(to_modules([node, child])))
     return dependencies  # type: ignore
